@@ -5,6 +5,8 @@ from report import Report
 import r_ioerr
 import r_loop
 import r_guard
+import r_lock
+import witness
 
 
 def c15(facts, tier):
@@ -67,7 +69,38 @@ def c06(facts, tier):
     return rep
 
 
+SHARED_TYPES = ("encryptor::Decryptor", "key::KeyGenerator", "evaluator::Evaluator", "batch_encoder::BatchEncoder",
+                "ckks_encoder::CKKSEncoder", "context::HeContext", "encryptor::Encryptor", "util::galois::GaloisTool",
+                "context::ContextData")
+
+
+def c17(facts, tier):
+    rep = Report("C17", tier, facts,
+                 "R-LOCK on the lock-protected caches (discovered from the type facts: every RwLock/Mutex field): "
+                 "(a) no lock is re-acquired while one of its guards is live, in the same body or through any callee "
+                 "(exact MIR guard live ranges) — deadlock freedom for these single-lock objects; (c) every "
+                 "whole-value publish through a write guard in a &self function is dominated by a re-check made "
+                 "under that write guard; (d) no shrinking operation through a guard in a &self function; plus the "
+                 "inventory of interior-mutable fields of the shareable types (exactly the lock fields).",
+                 "linearizability as a property of histories: only the structural conditions under which the "
+                 "standard lock-protected monotone-cache argument applies are decided; the arithmetic fact that a "
+                 "published array is longer than the current one is not derived.")
+    r_lock.run(facts, rep)
+    witness.run(rep, facts.repo, doc_tests=(tier == "thorough"))
+    # no other shared mutable state in the shareable types
+    lockf = {(tp, n) for tp, n, _, _ in r_lock.lock_fields(facts)}
+    for tp, n, ty in r_lock.interior_mutable_fields(facts):
+        if tp in SHARED_TYPES:
+            if (tp, n) in lockf:
+                rep.ok("R-LOCK(b,e)", "field/%s.%s" % (tp, n), "interior-mutable field is a lock: %s" % ty, nontrivial=False)
+            else:
+                rep.violation("R-LOCK(b,e)", "field/%s.%s" % (tp, n), "shareable type %s has interior-mutable field "
+                              "`%s: %s` that is not a lock: unsynchronised shared mutation" % (tp, n, ty))
+    return rep
+
+
 CHECKS = {
+    "C17": c17,
     "C06": c06,
     "C05": c05,
     "C15": c15,
